@@ -303,12 +303,14 @@ def program_st():
 PARTS = {"message": check_message, "style": check_style, "newline": check_newline, "indent": check_indent}
 
 
+HYP = {"message": (lambda ctx: markup.nodes_st().map(lambda n: {"nodes": n}), check_message),
+       "indent": (lambda ctx: program_st(), check_indent)}
+
 def run(ctx):
     from props import c10
 
     quick = ctx.tier == "quick"
-    case = markup.nodes_st().map(lambda n: {"nodes": n})
-    ctx.hyp(case, lambda c: check_message(ctx, c), 2500 if quick else 60000, salt=1)
+    ctx.hyp_sharded("message", 8000 if quick else 100000, salt=1)
     ctx.parallel("shard_styles", list(range(len(COLORS))))
     ctx.exhaustive("style", True, "18 foreground x 18 background x 2^7 attribute sets, three ways of supplying the style")
     lm = line_methods()
@@ -319,4 +321,4 @@ def run(ctx):
                 for text in ("hello", "two words", "é中"):
                     check_newline(ctx, {"kind": kind, "method": method, "formatter": fmt_kind, "text": text}, True)
     ctx.exhaustive("newline", True, "object kinds x reflected line methods x formatter x 3 texts")
-    ctx.hyp(program_st(), lambda c: check_indent(ctx, c), 1500 if quick else 30000, salt=2)
+    ctx.hyp_sharded("indent", 6000 if quick else 60000, salt=2)
